@@ -288,6 +288,7 @@ def handleModel (j : Json) : Except String Json := do
 def handle (j : Json) : Except String Json := do
   let k ← getStr (← field j "k")
   if k == "model" then handleModel j
+  else if k == "noop" then return Json.null
   else throw s!"unknown kind {k}"
 
 def main : IO Unit := serve handle
